@@ -207,7 +207,7 @@ def sched_case(
     n_debug: int = 0,
     setup_call_rate: float = 0.0,
     flag_rate: float = 0.0,
-    warm_rate: float = 0.15,
+    warm_rate: float = 0.3,
 ) -> Dict[str, Any]:
     mode = draw(st.sampled_from(list(modes)))
     res_pool = list(resources)
@@ -220,7 +220,7 @@ def sched_case(
         flags = True
     kinds = list(dep_kinds) + (["flag"] if flags else [])
     sel_on = bool(sel_rate) and draw(st.floats(0, 1)) < sel_rate
-    setup_by_roots = bool(setup_call_rate) and bool(n_setup) and draw(st.floats(0, 1)) < setup_call_rate / 2
+    setup_by_roots = bool(setup_call_rate) and bool(n_setup) and gen.chance(draw, setup_call_rate / 2)
     P = draw(gen.flat_prog(min_sites=min_sites, max_sites=ms, max_deps=max_deps, resources=res_pool, prio_range=prio,
                            seq_rate=seq_rate, dep_kinds=kinds, wide=wide, reuse=reuse, n_params=n_params,
                            mark_roots=not (sel_on or setup_by_roots), index_rate=index_rate, bad_index_rate=bad_index_rate,
@@ -275,7 +275,7 @@ def sched_case(
             case["call"] = "setup"
             case["sel"] = {"R": sroots}
             case.pop("failing", None)
-    if case.get("call") != "setup" and setup_call_rate and draw(st.floats(0, 1)) < setup_call_rate:
+    if case.get("call") != "setup" and setup_call_rate and gen.chance(draw, setup_call_rate):
         case["call"] = "setup"  # dag.setup(target_nodes=...) instead of a call
         case["sel"] = {"T": draw(st.lists(st.sampled_from(sites), min_size=0, max_size=3, unique=True))} if draw(st.booleans()) else None
         case.pop("failing", None)
@@ -301,7 +301,7 @@ def sched_case(
             case["reconf"] = {s: draw(st.integers(-3, 5)) for s in some[:half]}
         if some[half:]:
             case["reconf_seq"] = {s: draw(st.booleans()) for s in some[half:]}
-    if warm_rate and not case.get("failing") and case.get("call") != "setup" and draw(st.floats(0, 1)) < warm_rate \
+    if warm_rate and not case.get("failing") and case.get("call") != "setup" and gen.chance(draw, warm_rate) \
             and not any(f.get("setup") for f in P["fns"].values()):
         case["warm"] = True  # the instance has been called once before it is (re)configured and observed
     if profile_rate and draw(st.floats(0, 1)) < profile_rate:
